@@ -71,11 +71,11 @@ def _run(ctx, ncases, rec):
         acc.evals += 1
       nondet = len({r.tobytes() for r in reps}) > 1
       if nondet:
-        acc.find("the compacted (sleep-enabled) solve gives different qacc on identical inputs (uninitialised scratch is read)", "solver (compact, sparse)" if sparse else "solver (compact)",
-                 "sparse-sleep-nondeterminism" if sparse else "sleep-nondeterminism", xml=xs)
+        acc.find("the compacted (sleep-enabled) solve gives different qacc on identical inputs (uninitialised scratch is read)", "solver (compact)",
+                 "sleep-nondeterminism", xml=xs, sparse=sparse)
       elif not np.allclose(qa, qb, rtol=2e-3, atol=2e-3 * (1 + np.abs(qa).max())):
-        acc.find("qacc of the compacted solve (sleep enabled, all awake) differs from the full solve", "solver (compact, sparse)" if sparse else "solver.smooth_solve_compact",
-                 "sparse-sleep-nondeterminism" if sparse else "compact-vs-full", xml=xs, max_abs_diff=float(np.abs(qa - qb).max()))
+        acc.find("qacc of the compacted solve (sleep enabled, all awake) differs from the full solve", "solver.smooth_solve_compact",
+                 "compact-vs-full", xml=xs, sparse=sparse, max_abs_diff=float(np.abs(qa - qb).max()))
       acc.hit("sparse" if sparse else "dense")
       # DOF capacity: sweep nvmax
       for nvmax in sorted(set([ms.nv, ms.nv - 1, max(1, ms.nv // 2)])):
@@ -97,8 +97,8 @@ def _run(ctx, ncases, rec):
         if nvmax >= ms.nv and bit.any():
           acc.find(f"NVMAX bit set although nvmax {nvmax} >= awake dofs {ms.nv}", "island._compact_dofs", "nvmax-spurious", xml=xs, nvmax=nvmax)
         if nvmax >= ms.nv and not np.allclose(d.qacc.numpy(), qa, rtol=2e-3, atol=2e-3 * (1 + np.abs(qa).max())):
-          acc.find(f"qacc with nvmax={nvmax} (exact fit) differs from the full solve", "solver (compact, sparse)" if sparse else "island._compact_dofs",
-                   "sparse-sleep-nondeterminism" if sparse else "nvmax-exact-fit", xml=xs, nvmax=nvmax)
+          acc.find(f"qacc with nvmax={nvmax} (exact fit) differs from the full solve", "island._compact_dofs",
+                   "nvmax-exact-fit", xml=xs, nvmax=nvmax, sparse=sparse)
         acc.hit("exact-fit" if nvmax == ms.nv else "short")
       acc.sample({"nv": int(ms.nv), "cone": cone, "nworld": nworld})
 
